@@ -362,7 +362,12 @@ def _compress_tiles(
     # pylint: disable=import-outside-toplevel
     have.check_or_error("dask")
     from dask.bag import Bag
-    from dask.base import quote, tokenize
+    from dask.base import tokenize
+
+    try:
+        from dask.core import quote
+    except ImportError:  # pragma: no cover (older dask)
+        from dask.base import quote
     from dask.highlevelgraph import HighLevelGraph
 
     from .._interop import is_dask_collection
